@@ -136,7 +136,25 @@ def run_case(case, ctx):
         exact[np.diag_indices(n)] += 6.0 * ti * x
         ax = np.abs(x) + 1.0
         fscale = abs(ci) + float(np.sum(np.abs(bi) * ax)) + float(np.sum(np.abs(ti) * ax ** 3)) + float(np.sum(np.abs(P))) * float(np.max(ax)) ** 2
-    if cplx:
+    if cplx and case['seed'] % 2:
+        # complex-valued, but with an imaginary part that is exactly zero (with zero gradient) at the point itself:
+        # f0(z) + i (z - x)' Qc (z - x); the value f(x) is real, the Hessian is not
+        Qc = np.triu(rng.integers(-3, 4, size=(n, n))).astype(float)
+        Qc = Qc + Qc.T
+        Qc[np.diag_indices(n)] = np.where(np.diag(Qc) == 0, 2.0, np.diag(Qc))
+        x_c = np.array(x, dtype=float)
+
+        def f(z):
+            d_ = [z[k] - float(x_c[k]) for k in range(n)]
+            q_ = 0.0
+            for i_ in range(n):
+                for j_ in range(n):
+                    q_ = q_ + 0.5 * float(Qc[i_, j_]) * d_[i_] * d_[j_]
+            return f0(z) + 1.0j * q_
+        exact = exact + 1.0j * Qc
+        fscale = fscale + float(np.sum(np.abs(Qc)))
+        ctx.count('complex_valued_with_real_value_at_x')
+    elif cplx:
         f = lambda z: (0.5 + 1.0j) * f0(z)
         exact = (0.5 + 1.0j) * exact
         fscale *= 1.2
